@@ -16,7 +16,7 @@
    The leaf enumerations of minidump-common/src/errors (about 6000 named codes) are NOT
    modelled: membership is the function parameter [lk : enum id -> value -> bool].
    Definitions only; proofs are in C14/Proofs.v. *)
-From RM Require Export Base.Word C08.Model.
+From RM Require Export Base.Word C08.Model Gen.C14Names.
 Open Scope Z_scope.
 
 (* ------------------------------------------------------------------ platform *)
@@ -321,6 +321,81 @@ Definition crash_reason (o : os) (c : cpu) (e : exception) : reason :=
            end in
   match r with Some x => x | None => (Unknown, [e_code e; e_flags e]) end.
 End Reason.
+
+
+(* ------------------------------------------------------------------ crash reason strings *)
+(* Display for CrashReason, for the families whose name tables are small (regenerated from the source by
+   translate/c14_names.py).  None = not predicted (WinError / NTSTATUS tables, EXC_RESOURCE / EXC_GUARD). *)
+Fixpoint name_of (tbl : list (Z * list Z)) (v : Z) : option (list Z) :=
+  match tbl with
+  | [] => None
+  | (x, n) :: t => if x =? v then Some n else name_of t v
+  end.
+Definition hexd (d : Z) : Z := if d <? 10 then 48 + d else 87 + d.
+Fixpoint hexn (n : nat) (x : Z) : list Z :=
+  match n with O => [] | S m => hexn m (x / 16) ++ [hexd (x mod 16)] end.
+Definition hex010 (x : Z) : list Z := 48 :: 120 :: hexn 8 x.          (* {:#010x} of a 32-bit value *)
+Fixpoint str_eqb (a b : list Z) : bool :=
+  match a, b with
+  | [], [] => true
+  | x :: a', y :: b' => (x =? y) && str_eqb a' b'
+  | _, _ => false
+  end.
+Definition SEP : list Z := [32; 47; 32].                               (* " / " *)
+Definition signed32 (x : Z) : Z := if x <? 2147483648 then x else x - 4294967296.
+
+Definition prefixed (prefix : list Z) (tbl : list (Z * list Z)) (v : Z) : option (list Z) :=
+  match name_of tbl v with Some n => Some (prefix ++ n) | None => None end.
+
+Definition S_SIMULATED := [83; 73; 77; 85; 76; 65; 84; 69; 68].
+Definition reason_string (r : reason) : option (list Z) :=
+  match r with
+  | (MacGeneral, [code; flags]) =>
+      match name_of NAMES_ExceptionCodeMac code with
+      | Some n => if str_eqb n S_SIMULATED then Some [83; 105; 109; 117; 108; 97; 116; 101; 100; 32; 69; 120; 99; 101; 112; 116; 105; 111; 110] else Some (n ++ SEP ++ hex010 flags)
+      | None => None end
+  | (MacBadAccessKern, [v]) => prefixed [69; 88; 67; 95; 66; 65; 68; 95; 65; 67; 67; 69; 83; 83; 32; 47; 32] NAMES_ExceptionCodeMacBadAccessKernType v
+  | (MacBadAccessArm, [v]) => prefixed [69; 88; 67; 95; 66; 65; 68; 95; 65; 67; 67; 69; 83; 83; 32; 47; 32] NAMES_ExceptionCodeMacBadAccessArmType v
+  | (MacBadAccessPpc, [v]) => prefixed [69; 88; 67; 95; 66; 65; 68; 95; 65; 67; 67; 69; 83; 83; 32; 47; 32] NAMES_ExceptionCodeMacBadAccessPpcType v
+  | (MacBadAccessX86, [v]) => prefixed [69; 88; 67; 95; 66; 65; 68; 95; 65; 67; 67; 69; 83; 83; 32; 47; 32] NAMES_ExceptionCodeMacBadAccessX86Type v
+  | (MacBadInstructionArm, [v]) => prefixed [69; 88; 67; 95; 66; 65; 68; 95; 73; 78; 83; 84; 82; 85; 67; 84; 73; 79; 78; 32; 47; 32] NAMES_ExceptionCodeMacBadInstructionArmType v
+  | (MacBadInstructionPpc, [v]) => prefixed [69; 88; 67; 95; 66; 65; 68; 95; 73; 78; 83; 84; 82; 85; 67; 84; 73; 79; 78; 32; 47; 32] NAMES_ExceptionCodeMacBadInstructionPpcType v
+  | (MacBadInstructionX86, [v]) => prefixed [69; 88; 67; 95; 66; 65; 68; 95; 73; 78; 83; 84; 82; 85; 67; 84; 73; 79; 78; 32; 47; 32] NAMES_ExceptionCodeMacBadInstructionX86Type v
+  | (MacArithmeticArm, [v]) => prefixed [69; 88; 67; 95; 65; 82; 73; 84; 72; 77; 69; 84; 73; 67; 32; 47; 32] NAMES_ExceptionCodeMacArithmeticArmType v
+  | (MacArithmeticPpc, [v]) => prefixed [69; 88; 67; 95; 65; 82; 73; 84; 72; 77; 69; 84; 73; 67; 32; 47; 32] NAMES_ExceptionCodeMacArithmeticPpcType v
+  | (MacArithmeticX86, [v]) => prefixed [69; 88; 67; 95; 65; 82; 73; 84; 72; 77; 69; 84; 73; 67; 32; 47; 32] NAMES_ExceptionCodeMacArithmeticX86Type v
+  | (MacSoftware, [v]) => prefixed [69; 88; 67; 95; 83; 79; 70; 84; 87; 65; 82; 69; 32; 47; 32] NAMES_ExceptionCodeMacSoftwareType v
+  | (MacBreakpointArm, [v]) => prefixed [69; 88; 67; 95; 66; 82; 69; 65; 75; 80; 79; 73; 78; 84; 32; 47; 32] NAMES_ExceptionCodeMacBreakpointArmType v
+  | (MacBreakpointPpc, [v]) => prefixed [69; 88; 67; 95; 66; 82; 69; 65; 75; 80; 79; 73; 78; 84; 32; 47; 32] NAMES_ExceptionCodeMacBreakpointPpcType v
+  | (MacBreakpointX86, [v]) => prefixed [69; 88; 67; 95; 66; 82; 69; 65; 75; 80; 79; 73; 78; 84; 32; 47; 32] NAMES_ExceptionCodeMacBreakpointX86Type v
+  | (LinuxGeneral, [code; flags]) =>
+      match name_of NAMES_ExceptionCodeLinux code with
+      | Some n =>
+          match name_of NAMES_ExceptionCodeLinuxSicode (signed32 flags) with
+          | Some si => if signed32 flags =? 0 then Some n else Some (n ++ SEP ++ si)     (* SI_USER = 0 *)
+          | None => Some (n ++ SEP ++ hex010 flags)
+          end
+      | None => None end
+  | (LinuxSigill, [v]) => prefixed [83; 73; 71; 73; 76; 76; 32; 47; 32] NAMES_ExceptionCodeLinuxSigillKind v
+  | (LinuxSigtrap, [v]) => prefixed [83; 73; 71; 84; 82; 65; 80; 32; 47; 32] NAMES_ExceptionCodeLinuxSigtrapKind v
+  | (LinuxSigbus, [v]) => prefixed [83; 73; 71; 66; 85; 83; 32; 47; 32] NAMES_ExceptionCodeLinuxSigbusKind v
+  | (LinuxSigfpe, [v]) => prefixed [83; 73; 71; 70; 80; 69; 32; 47; 32] NAMES_ExceptionCodeLinuxSigfpeKind v
+  | (LinuxSigsegv, [v]) => prefixed [83; 73; 71; 83; 69; 71; 86; 32; 47; 32] NAMES_ExceptionCodeLinuxSigsegvKind v
+  | (LinuxSigsys, [v]) => prefixed [83; 73; 71; 83; 89; 83; 32; 47; 32] NAMES_ExceptionCodeLinuxSigsysKind v
+  | (WindowsGeneral, [code]) =>
+      match name_of NAMES_ExceptionCodeWindows code with
+      | Some n => if str_eqb n [79; 85; 84; 95; 79; 70; 95; 77; 69; 77; 79; 82; 89] then Some [79; 117; 116; 32; 111; 102; 32; 77; 101; 109; 111; 114; 121]
+                  else if str_eqb n [85; 78; 72; 65; 78; 68; 76; 69; 68; 95; 67; 80; 80; 95; 69; 88; 67; 69; 80; 84; 73; 79; 78] then Some [85; 110; 104; 97; 110; 100; 108; 101; 100; 32; 67; 43; 43; 32; 69; 120; 99; 101; 112; 116; 105; 111; 110]
+                  else if str_eqb n S_SIMULATED then Some [83; 105; 109; 117; 108; 97; 116; 101; 100; 32; 69; 120; 99; 101; 112; 116; 105; 111; 110]
+                  else Some n
+      | None => None end
+  | (WindowsAccessViolation, [v]) => prefixed [69; 88; 67; 69; 80; 84; 73; 79; 78; 95; 65; 67; 67; 69; 83; 83; 95; 86; 73; 79; 76; 65; 84; 73; 79; 78; 95] NAMES_ExceptionCodeWindowsAccessType v
+  | (WindowsStackBufferOverrun, [v]) =>
+      Some ([69; 88; 67; 69; 80; 84; 73; 79; 78; 95; 83; 84; 65; 67; 75; 95; 66; 85; 70; 70; 69; 82; 95; 79; 86; 69; 82; 82; 85; 78; 32; 47; 32] ++ match name_of NAMES_FastFailCode v with Some n => n | None => hex010 v end)
+  | (WindowsUnknown, [code]) => Some ([117; 110; 107; 110; 111; 119; 110; 32] ++ hex010 code)
+  | (Unknown, [code; flags]) => Some ([117; 110; 107; 110; 111; 119; 110; 32] ++ hex010 code ++ SEP ++ hex010 flags)
+  | _ => None
+  end.
 
 (* ------------------------------------------------------------------ pid / create time *)
 Definition MISC1_PROCESS_ID : Z := 0.      (* bit numbers of MiscInfoFlags *)
